@@ -2,6 +2,7 @@ package gensim
 
 import (
 	"fmt"
+	"os"
 	"math/rand/v2"
 	"sort"
 	"strings"
@@ -179,6 +180,9 @@ func withGoMod(w *World) map[string]string {
 
 // keyC09 names the specific cause of a minimised C09 violation.
 func keyC09(c *Ctx, f Found) string {
+	if strings.Contains(f.V.Class, "/") {
+		return f.V.Class // the class itself names the specific state
+	}
 	gi := f.V.OpIndex
 	if s := CulpritSite(f.H, gi); s >= 0 {
 		return f.V.Class + ":site=" + c.SiteKey(s)
@@ -235,7 +239,10 @@ func (c *Ctx) finish(prop, level string, found []Found, judge Judge, keyFn func(
 			continue
 		}
 		seenKey["pre:"+pre] = true
-		min, log := c.Shrink(f, judge, budget)
+		min, log := f, []string{"(shrinking disabled)"}
+		if os.Getenv("VERIF_NOSHRINK") == "" {
+			min, log = c.Shrink(f, judge, budget)
+		}
 		maxShrink--
 		min.V.Key = prop + ":" + keyFn(c, min)
 		if seenKey[min.V.Key] {
